@@ -216,6 +216,36 @@ def r053(an, rep):
                     bad.append(f"function ({', '.join(f'{k}={v!r}' for k, v in bt.items() if not isinstance(v, _O))}) whose first constant is the str {cv!r}: None is not pinned at index 0, the string becomes __doc__")
                 if val and not may:
                     bad.append(f"None pinned although block={'Function(docstring=%r)' % bt['docstring'] if is_fn else None}, table={tb}, override={ov}")
+        if g["kind"] == "pin" and g.get("arg"):
+            # the same slot can be claimed by a position override: a str constant with override 0 in a function whose data says "no docstring" would be read as
+            # __doc__ by CPython - the override contradicts the docstring field, so the encoder has to refuse (the None pin is skipped for overridden operands)
+            fobj = an.prog.function(g["fn"])
+            from .encode_model import guards_of, conj, inline_locals
+            raises = [r for r in ast.walk(fobj.node) if isinstance(r, ast.Raise)]
+            def fires(bt, cv, ov):
+                for r in raises:
+                    tests = guards_of(fobj.module, fobj, r)
+                    if not tests:
+                        continue
+                    test = inline_locals(fobj.node, conj(tests))
+                    env = {c.name: c.name for c in an.prog.all_classes()}
+                    env.update({"isinstance": isinst, "str": "str", g["block"]: bt, g["table"]: (), g["arg"]: _O("Constant", constant=cv, _index_override=ov)})
+                    try:
+                        if bool(feval(test, env)):
+                            return True
+                    except (FevalError, KeyError, AttributeError, TypeError):
+                        continue
+                return False
+            some_fn = _Fn(docstring=None, **combos[0])
+            doc_fn = _Fn(docstring="s", **combos[0])
+            rejected = fires(some_fn, "s", 0)
+            spurious = [d for d, (bt, cv, ov) in {"a str with override 3": (some_fn, "s", 3), "the int 1 with override 0": (some_fn, 1, 0),
+                                                   "the docstring itself with override 0": (doc_fn, "s", 0), "a str without override": (some_fn, "s", None)}.items() if fires(bt, cv, ov)]
+            rep.add("R05.3", f"{g['fn']}::a str pinned at index 0 of a function without docstring is refused", rejected and not spurious, g["where"],
+                    "the encoder raises for a str constant with position override 0 when the data says docstring=None, and only then" if rejected and not spurious else
+                    (f"the encoder also refuses {spurious[0]}" if rejected else
+                     "a str constant with `_index_override=0` in a function whose data says docstring=None is written to co_consts[0] without complaint (the None pin only covers operands without "
+                     "override): CPython reads it as __doc__, so the code object does not say what the data says and decodes to other data (decoded `return None` edited to `return 'zz'`)"))
         what = "constants[0] = docstring" if g["kind"] == "seed" else "constants[0] = None"
         rep.add("R05.3", f"{g['fn']}::{what}", not bad, g["where"],
                 (f"guard {norm_src(g['test'])} wrong on {len(bad)} of {n_eval} domain points, e.g. " + bad[0]) if bad
